@@ -75,6 +75,10 @@ class Build:
                         COQ_SRC + "/", self.dir + "/"], check=True)
         if regenerate:
             self.regenerate()
+        # the project file is derived from the files present in the scratch copy (never trusted from coq/:
+        # it goes stale when a file is added or removed)
+        subprocess.run(["sh", os.path.join(VERIF, "tools", "mkproject.sh"), self.dir], check=False,
+                       stdout=subprocess.DEVNULL, stderr=subprocess.DEVNULL)
         if not os.path.exists(os.path.join(self.dir, "Makefile")):
             self.sh("coq_makefile -f _CoqProject -o Makefile", 120)
 
